@@ -1,3 +1,4 @@
+import Varint.Lemmas.Adaptive
 import Varint.Lemmas.BP128
 import Varint.Lemmas.Dict
 import Varint.Lemmas.RLEH
@@ -135,6 +136,12 @@ theorem bp128_trace_lt_cap (bs : List Nat) (cap : Nat) (vs : List Nat) :
     (BP128.dec32 bs cap = some vs → vs.length ≤ cap) ∧ (BP128.dec64 bs cap = some vs → vs.length ≤ cap) ∧
     (BP128.decD32 bs cap = some vs → vs.length ≤ cap) ∧ (BP128.decD64 bs cap = some vs → vs.length ≤ cap) :=
   ⟨BP128.dec32_cap bs cap vs, BP128.dec64_cap bs cap vs, BP128.decD32_cap bs cap vs, BP128.decD64_cap bs cap vs⟩
+
+
+/-- adaptive decoder, all six arms, ANY bytes: at most `maxCount` values are stored -/
+theorem adaptive_trace_lt_cap (bs : List Nat) (cap : Nat) (vs : List Nat)
+    (h : Adaptive.decodeAll bs cap = some vs) : vs.length ≤ cap :=
+  Adaptive.decodeAll_length_le_cap bs cap vs h
 
 /-- dictionary (DecodeInto), any bytes: at most `maxValues` values are stored (shared with C14) -/
 theorem dict_trace_lt_cap (bs : List Nat) (c : Nat) (vs : List Nat)
